@@ -31,7 +31,7 @@ from pane.convert import make_converter, ConverterHandlers
 from pane.errors import ParseInterrupt, ConvertError
 from pane.util import KeyCache
 
-from hlib import obligation, crosshair_exc, eqv, lf
+from hlib import obligation, crosshair_exc, eqv, lf, untraced
 
 PCV = sys.modules['pane.convert']
 PCL = sys.modules['pane.classes']
@@ -337,7 +337,8 @@ def body_subscription_history(a: int, b: int, c: int) -> int:
     make_converter.cache = dict(SNAP2)
     try:
         for k in (a, b, c, a):
-            cls = G[pick(SUBS, k)]
+            with untraced():          # (_make_subclass is an lru_cache memo: CrossHair bypasses those while tracing)
+                cls = G[pick(SUBS, k)]
             try:
                 x = cls.from_data({'v': pick(SUBVAL, k)})
             except Exception as e:
